@@ -2,6 +2,8 @@
    recogniser's literal scanner; the character set of sanitised rule names; and the concrete refutations
    (defect classes of the pinned tree). *)
 From OV Require Import Base.Strs Gen.GbnfGen Gbnf.Syntax Gbnf.Compiler Gbnf.Safe.
+Require Coq.Strings.String.
+Import Coq.Strings.String.StringSyntax.
 Open Scope N_scope.
 
 (* ---- str.replace with a one-character pattern is a flat_map --------------------------------------- *)
@@ -236,6 +238,13 @@ Proof. reflexivity. Qed.
 
 Lemma pin_header_one_line : gbnf_header_name_one_line = true.
 Proof. reflexivity. Qed.
+
+(* which expression feeds SchemaDefinition.name, per route; the defaults; the parser's placeholder *)
+Lemma pin_name_sources :
+  map fst gbnf_name_sources = [lit "compile_gbnf_from_meta"; lit "extract_schema_from_document"; lit "emit_grammar_for_schema"]
+  /\ gbnf_docroute_default_name = lit "UNKNOWN" /\ gbnf_contract_default_type = lit "UNKNOWN"
+  /\ gbnf_parser_inferred_name = lit "INFERRED".
+Proof. vm_compute. repeat split; reflexivity. Qed.
 
 Lemma pin_names_escaped : gbnf_field_name_escaped = true /\ gbnf_schema_name_escaped = true.
 Proof. split; reflexivity. Qed.
